@@ -375,6 +375,41 @@ def check(ctx):
             ctx.ob("C09.3", prog.func(L + name), okb,
                    "is_se3 tests the [:3,:3] block itself",
                    key="C09.3:is_se3:block")
+    # "accept every genuine group element ... scales 1e-4..1e4": a
+    # near-zero test with an *absolute* tolerance on a quantity that scales
+    # with the element (determinant ~ s^3, block norm ~ s) rejects genuine
+    # elements of small scale
+    for name in ("is_sim3", "sim3_inverse", "sim3_scale"):
+        fn = prog.func(L + name)
+        rr = Interp(prog).run(fn)
+        conds = [rr.ret] + [e.live for e in rr.of_kind("raise")]
+        hits = []
+        for c in conds:
+            for x in c.walk():
+                if not is_call_to(x, "numpy.isclose", "numpy.allclose",
+                                  "math.isclose") or len(x.args[1]) < 2:
+                    continue
+                a_, b_ = x.args[1][0], x.args[1][1]
+                for q, z in ((a_, b_), (b_, a_)):
+                    zero = tm.is_const(z) and tm.const_val(z) in (0, 0.0)
+                    scaled = any(is_call_to(y, "numpy.linalg.det",
+                                            "numpy.linalg.norm")
+                                 for y in q.walk()) and any(
+                        y.op == "param" for y in q.walk())
+                    kw = dict(x.args[2])
+                    relative = "rel_tol" in kw or (
+                        "atol" in kw and not tm.is_const(kw["atol"]))
+                    if zero and scaled and not relative:
+                        hits.append(x)
+        if hits or name == "is_sim3":
+            ctx.ob("C09.3", fn, not hits,
+                   f"{name}: no absolute near-zero test on a quantity that "
+                   f"scales with the element" if not hits else
+                   f"{name}: {fmt(hits[0])[:90]} compares a determinant / "
+                   f"norm of the scaled block with 0 under numpy's absolute "
+                   f"tolerance (1e-8): a genuine Sim(3) element with scale "
+                   f"1e-3 has det 1e-9 and is treated as singular",
+                   key=f"C09.3:{name}:small-scale", nontrivial=bool(hits))
     # is_sim3: reflections (negative block determinant) must not pass
     sc = Interp(prog).run(prog.func(L + "sim3_scale")).ret
     while is_call_to(sc, "builtins.float", "numpy.float64", "numpy.real") \
